@@ -27,7 +27,7 @@ class MacroGen:
             return ['tick', self.tid, e]
         return e
 
-    def atom(self): return self.tk(self.r.choice([1, 2, 3, 'a', 'b', 'x', 'n', None, True, 0]))
+    def atom(self): return self.tk(self.r.choice([1, 2, 3, 'a', 'b', 'x', 'n', 's', 's', None, True, 0]))
 
     def form(self, d):
         r = self.r
@@ -81,7 +81,7 @@ class MacroGen:
             x = r.random()
             v = r.choice(['u', 'v', 'w', 's'])
             e = self.tk(r.choice([1, None, 'a', 's', ['car', Q([5])], ['cdr', Q([5])], 'n']))
-            if x < 0.7: specs.append([v, e])
+            if x < 0.6: specs.append([v, e])
             elif x < 0.85: specs.append([e])          # anonymous binding (EXPR)
             else: specs.append(r.choice(['a', 's', 'n']))    # bare symbol: bound to its own value
         if not star and len(specs) == 1 and isinstance(specs[0], list) and len(specs[0]) == 2 and r.random() < 0.5:
